@@ -6,6 +6,7 @@
 import SSEPyVerif.Model.Schemes.Common
 import SSEPyVerif.Props.C14
 import SSEPyVerif.Props.C16
+import SSEPyVerif.Props.C17
 namespace SSEPy.Sch
 
 /-- assumptions on the leaves: `D_k(E_k(x)) = x` and `|E_k(x)| = 16` on 16-byte blocks; HMAC-SHA1 digests have 20 bytes -/
@@ -49,5 +50,44 @@ theorem ske_dec_enc (lv : Leaves) (hl : LeafLaws lv) (s : AESxCBC) (hs : PlainSk
   obtain ⟨c', h1, h2⟩ := C14.dec_enc s lv.E lv.D key iv msg (hl.dec_enc key) (hl.enc_len key) hiv
     ⟨hk, Or.inl hs.2⟩ (Or.inl hs.1)
   rw [h] at h1; cases h1; exact h2
+
+/-- a successful PRF call: the key had the declared length and the output has the declared length -/
+theorem prf_ok (p : HmacPRF) (hmac : Hmac) (hd : ∀ k m, (hmac k m).length = p.hashLen) (h0 : 0 < p.hashLen)
+    (key msg out : Bytes) (h : p.call hmac key msg = .ok out) :
+    out.length = p.outputLength.toNat ∧ (p.keyLength = -1 ∨ (key.length : Int) = p.keyLength) := by
+  unfold HmacPRF.call at h
+  by_cases hk : (p.keyLength != LENGTH_UNLIMITED && (key.length : Int) != p.keyLength) = true
+  · simp [hk] at h
+  · by_cases hm : (p.messageLength != LENGTH_UNLIMITED && (msg.length : Int) != p.messageLength) = true
+    · simp [hk, hm] at h
+    · simp only [hk, hm, if_false, Bool.false_eq_true] at h
+      cases h
+      refine ⟨?_, ?_⟩
+      · by_cases hpos : p.outputLength ≤ 0
+        · simp [tlsPHash, hpos]; omega
+        · have := C16.phash_len hmac p.hashLen hd h0 key msg p.outputLength.toNat
+          have e : ((p.outputLength.toNat : Nat) : Int) = p.outputLength := by omega
+          rw [e] at this; exact this
+      · simp [LENGTH_UNLIMITED] at hk
+        by_cases h1 : p.keyLength = -1
+        · exact Or.inl h1
+        · exact Or.inr (hk h1)
+
+theorem flatten_inj_of_lengths : ∀ (a b : List Bytes), a.flatten = b.flatten → a.map (·.length) = b.map (·.length) → a = b
+  | [], [], _, _ => rfl
+  | [], _ :: _, _, h => by simp at h
+  | _ :: _, [], _, h => by simp at h
+  | x :: xs, y :: ys, hf, hl => by
+    simp only [List.map_cons, List.cons.injEq] at hl
+    simp only [List.flatten_cons] at hf
+    have hxy : x = y := by
+      have := congrArg (List.take x.length) hf
+      rw [List.take_left] at this
+      rw [hl.1, List.take_left] at this
+      exact this
+    subst hxy
+    have := List.append_cancel_left hf
+    rw [flatten_inj_of_lengths xs ys this hl.2]
+
 
 end SSEPy.Sch
